@@ -58,6 +58,11 @@ CHECKS = {
         technique='pretty output aligned to the derivation tokens; PrintTrace.tla checks per line-starting token leading white space = indent_str x depth (depth from the braces / case bodies of the derivation), one final newline, Indentator level 0; also for a reused printer object after an abandoned rendering',
         text='For TLC-derived programs with braces x 5 indentation strings (incl. empty and tab), each line of pretty_print output that starts a token must be indented by exactly indent_str x nesting depth dictated by the derivation (blocks, function bodies, object literals, switch blocks, +1 in case bodies), the text must end with exactly one newline and the recorded indentation level must be back at zero; the same is required from a printer object that is reused after a rendering was abandoned midway.',
         note='Depth is computed by the harness from the derivation brackets; lines inside multi-line tokens are never line starts; comment lines are not judged here (C13).'),
+    'C09': dict(
+        category='model_checking', design_ref='5 (C09)',
+        technique='trace validation: mappings returned by sourcemap.write for synthetic fragment-kind sequences (exhaustive to length n) and for real printer streams are decoded by the TLA+ decoder SourceMapV3.tla and every explicitly positioned fragment is looked up at its generated position (MapTrace.tla, TLC batches)',
+        text='For every sequence up to length n over 18 fragment kinds (positioned, renamed shorter/longer, inferred, unmapped, newline variants, multi-line tokens with LF and CR, source changes, NotImplemented source) x normalize x first-source variant, and for the fragment streams of the pretty / minify / obfuscating printers on TLC-derived programs (one and two sources): decoding the returned mappings with a decoder written from the Source Map V3 format must map the generated position of each explicitly positioned fragment to its source, line, column (by interpolation only when normalising) and original name; indices in range, generated columns non-decreasing, number of mapping lines = number of text lines; the VLQ string decodes to the raw tuples.',
+        note='Trusted: generated positions computed by the harness from the written text; streams that split a CR LF pair over two fragments are excluded as not well-formed; an empty-text fragment is not taken to say anything about the current source (write() skips it - noted in DESIGN).'),
 }
 
 NOT_YET = {}
